@@ -10,12 +10,43 @@ def opt_budget(rng, kw, meta):
         kw["dense"] = True
 
 
+def signs_builder(seed, n, defaults, tag):
+    """blow-up / NaN right-hand sides started at negative, zero and positive x0, in both directions, unlimited budget:
+    the underflow guards compare |h| with |x|, so the sign of x relative to the direction of travel matters"""
+    import random
+    from . import gen, sweep
+    rng = random.Random(seed)
+    cases, metas = [], {}
+    k = 0
+    for method in sweep.available_methods():
+        if method == "RK4":
+            continue
+        for fam in (gen.fam_blowup, gen.fam_nan_after):
+            for x0 in (-3.0, -1.5, 0.0, 1.5, 3.0):
+                for d in (1.0, -1.0):
+                    prob = fam(rng)
+                    p2 = dict(prob)
+                    if d < 0:
+                        from .p_c13 import subst_reflect
+                        p2["f"] = ["neg," + subst_reflect(e) for e in prob["f"]]
+                    # shift time so that the trouble happens relative to x0:  t -> t - x0 (forward) / -(t - x0) (backward)
+                    shift = gen.sub(gen.T, gen.C(x0))
+                    p2["f"] = [",".join(shift if tok == "t" else tok for tok in e.split(",")) for e in p2["f"]]
+                    kw = dict(method=method, prob=p2, x0=x0, xend=x0 + d * prob["span"], rtol=1e-6, atol=1e-9, defaults=defaults)
+                    cid = "%s%d" % (tag, k)
+                    k += 1
+                    cases.append(gen.solve_case(cid, **kw))
+                    metas[cid] = ({"family": prob["name"] + ("@x0=%g" % x0), "n": 1, "backward": d < 0, "tolmode": "mixed", "method": method}, kw)
+    return cases, metas
+
+
 def check():
     prof = dict(PROFILES["patho"])
     prof["options"] = opt_budget
     return solvercheck.run(
         "C04", "C04.v" if __import__("os").path.exists(__import__("os").path.join(solvercheck.common.COQ, "props", "C04.v")) else None,
-        [dict(profile=prof, n_quick=120, n_thorough=1500, isolated=True, timeout=20)],
+        [dict(profile=prof, n_quick=120, n_thorough=1500, isolated=True, timeout=20),
+         dict(builder=signs_builder, n_quick=1, n_thorough=1, isolated=True, timeout=15)],
         [oracles.oracle_C04, oracles.oracle_shapes], TB,
         "pathological right-hand sides (finite-time blow-up y'=y^2 and y'=1+y^2, stiff decay with explicit methods, discontinuous, "
         "NaN-/inf-returning after t*) x 6 methods x default and finite budgets; one process per case with a 20 s watchdog and an "
